@@ -112,6 +112,71 @@ def replay_iop(a):
     return None if not bad else {"mismatches": [(op, e, g) for op, (e, g) in bad]}
 
 
+def errpath_case(cr, co, xm, ym):
+    """error paths must leave nothing behind: after a refused / failing operation the next product,
+    inverse and power are the model's (both families)"""
+    from .. import lib as _lib
+
+    out = []
+    for fam, cfg in (("ref", cr), ("opt", co)):
+        m = _lib.fields_mod(fam)
+        x, y = cfg.lib(xm), cfg.lib(ym)
+        FQc = _lib.fq_class(fam, cfg.p)
+        other = None
+        try:  # an element of another extension degree over the same prime
+            if cfg.mc is not None and len(cfg.mc) == 2:
+                mc12 = fl.deg12_moduli(cfg.p)[0] if cfg.p in (2, 3, 5, 7) else None
+                other = _lib.fq12_class(fam, cfg.p, mc12)([1] * 12) if mc12 else None
+            elif cfg.mc is not None:
+                other = _lib.fq2_class(fam, cfg.p, fl.quadratics(cfg.p)[0])([1, 1])
+        except Exception:  # noqa: BLE001
+            other = None
+        bads = [("none-coefficient", lambda: x * cfg.cls([FQc(1)] + [None] * (len(cfg.mc) - 1)) if cfg.mc is not None else x * None),
+                ("other-degree", lambda: x * other if other is not None else x * "s"),
+                ("other-degree-reflected", lambda: other * x if other is not None else "s" * x),
+                ("string", lambda: x * "1"), ("div-by-list", lambda: x / [1]), ("pow-float", lambda: x ** 1.5)]
+        for lbl, thunk in bads:
+            try:
+                thunk()
+            except Exception:  # noqa: BLE001
+                pass
+            for op, exp, got in (("mul", fl.model_op(cfg, "mul", xm, ym), fl.run_op(cfg, "mul", x, y)),
+                                 ("mul-one", ("ok", xm), fl.run_op(cfg, "mul", x, cfg.cls.one())),
+                                 ("inv", fl.model_op(cfg, "inv", xm), fl.run_op(cfg, "inv", x)),
+                                 ("pow", fl.model_op(cfg, "pow", xm, 3), fl.run_op(cfg, "pow", x, 3))):
+                if got != exp:
+                    out.append(("%s:after-%s:%s" % (op, lbl, fam), (exp, got)))
+    return out
+
+
+def task_errpath_tables(a, env):
+    """error-path histories on one tiny field (used by C08 as well)"""
+    cr, co = fl.cfg_of(a, "ref"), fl.cfg_of(a, "opt")
+    r = R("after-error-path:%s" % kindname(cr))
+    F = cr.F
+    els = [e for e in elements(cr, "structured:8", env) if not F.is_zero(e)][:6]
+    for xm in els:
+        for ym in els[:2]:
+            for (op, bad_out) in errpath_case(cr, co, xm, ym):
+                r.viol("C14:%s:after-error-path:%s" % (kindname(cr), op.split(":")[0]), ME + ":replay_errpath",
+                       {"p": a["p"], "mc": a.get("mc"), "x": fl.el_json(cr, xm), "y": fl.el_json(cr, ym)},
+                       bad_out[0], bad_out[1], note=op)
+            r.ev += 48
+            r.transitions += 48
+            r.dk.add((xm, ym))
+    r.states = len(els)
+    r.sample({"field": fl.cfg_name(a), "history": "refused / failing operation, then mul, mul-by-one, inv, pow"})
+    return r
+
+
+def replay_errpath(a):
+    cr, co = fl.cfg_of(a, "ref"), fl.cfg_of(a, "opt")
+    x = a["x"] if cr.mc is None else tuple(a["x"])
+    y = a["y"] if cr.mc is None else tuple(a["y"])
+    bad = errpath_case(cr, co, x, y)
+    return None if not bad else {"mismatches": [(op, e, g) for op, (e, g) in bad]}
+
+
 def replay_fqform(a):
     cr, co = fl.cfg_of(a, "ref"), fl.cfg_of(a, "opt")
     bad = fqform_case(cr, co, tuple(a["x"]), tuple(a["y"]) if a.get("y") else None)
@@ -185,6 +250,16 @@ def task_tables(a, env):
                        bad_out[0], bad_out[1], note=op)
             r.ev += 6
             r.transitions += 6
+    # error paths followed by ordinary operations
+    nzq = [b for b in B if not F.is_zero(b)][:2]
+    for xm in [e for e in A if not F.is_zero(e)][:6]:
+        for ym in nzq:
+            for (op, bad_out) in errpath_case(cr, co, xm, ym):
+                r.viol("C14:%s:after-error-path:%s" % (kind, op.split(":")[0]), ME + ":replay_errpath",
+                       {"p": p, "mc": a.get("mc"), "x": fl.el_json(cr, xm), "y": fl.el_json(cr, ym)},
+                       bad_out[0], bad_out[1], note=op)
+            r.ev += 48
+            r.transitions += 48
     # augmented assignment: value and absence of aliasing
     nz = [b for b in B if not F.is_zero(b)][:3]
     for xm in A[:60]:
@@ -344,6 +419,81 @@ def task_subsub(a, env):
     return r
 
 
+def task_inv_sweep(a, env):
+    """x * (1/x) == 1 and 1/x == model for EVERY residue of every prime in the given range (both
+    families, prime fields by subclassing), and for a window around p/phi at full size (worst
+    case of Euclid's algorithm)"""
+    from .. import lib as _lib
+    from ..model.zp import is_prime
+
+    r = R("inverse-sweep:all-residues-of-small-primes")
+    for p in range(a["lo"], a["hi"]):
+        if not is_prime(p):
+            continue
+        cls = {fam: _lib.fq_class(fam, p) for fam in ("ref", "opt")}
+        for x in range(1, p):
+            want = pow(x, -1, p)
+            for fam in ("ref", "opt"):
+                try:
+                    got = (1 / cls[fam](x)).n
+                except Exception as e:  # noqa: BLE001
+                    got = "raise " + type(e).__name__
+                if got != want:
+                    r.viol("C14:FQ:inverse:%s" % fam, ME + ":replay_inv", {"p": p, "x": hex(x), "fam": fam}, want, got)
+        r.ev += 2 * (p - 1)
+        r.dn += p - 1
+        r.states += 1
+    r.transitions = r.ev
+    if a.get("sample"):
+        r.sample({"primes": "all primes in [%d, %d)" % (a["lo"], a["hi"]), "residues": "all"})
+    return r
+
+
+def task_inv_phi(a, env):
+    from math import isqrt
+    r = R("inverse-sweep:window-around-p/phi")
+    for curve in ("bn128", "bls12_381"):
+        cfgs = full_cfgs(curve)
+        p = cfgs[("ref", "E1")].p
+        # floor(p / phi), phi = (1 + sqrt 5) / 2, in integer arithmetic
+        S_ = 10 ** 200
+        x0 = (2 * p * S_) // (S_ + isqrt(5 * S_ * S_))
+        for base in (x0, p - x0):
+            for x in range(base - a["w"], base + a["w"]):
+                want = pow(x, -1, p)
+                for fam in ("ref", "opt"):
+                    cfg = cfgs[(fam, "E1")]
+                    try:
+                        got = (1 / cfg.lib(x)).n
+                    except Exception as e:  # noqa: BLE001
+                        got = "raise " + type(e).__name__
+                    if got != want:
+                        r.viol("C14:FQ:inverse-near-p/phi:%s" % fam, ME + ":replay_inv", {"p": p, "x": hex(x), "fam": fam}, want, got)
+                r.ev += 2
+                r.dn += 1
+    r.transitions = r.ev
+    r.states = 2
+    r.sample({"window": "floor(p/phi) +- %d and p - floor(p/phi) +- %d" % (a["w"], a["w"]), "fields": ["bn128 FQ", "bls12_381 FQ"]})
+    return r
+
+
+def replay_inv(a):
+    from .. import lib as _lib
+    p, x = a["p"], int(a["x"], 16)
+    cls = _lib.fq_class(a["fam"], p)
+    if p.bit_length() > 64:
+        for curve in ("bn128", "bls12_381"):
+            cfg = full_cfgs(curve)[(a["fam"], "E1")]
+            if cfg.p == p:
+                cls = cfg.cls
+    try:
+        got = (1 / cls(x)).n
+    except Exception as e:  # noqa: BLE001
+        got = "raise " + type(e).__name__
+    want = pow(x, -1, p)
+    return None if got == want else {"expected": want, "observed": got}
+
+
 def task_bfs(a, env):
     curve, grp, depth = a["curve"], a["group"], a["depth"]
     cfgs = full_cfgs(curve)
@@ -478,8 +628,9 @@ def run(ctx):
                 spec = ({"A": "structured:60", "B": "structured:4", "Bmax": 8, "Amax": 150} if p == 2
                         else {"A": "structured:12", "B": "structured:4", "Bmax": 8, "Amax": 100})
             else:
-                spec = ({"A": "all", "B": "structured:20", "Bmax": 60} if p == 2
-                        else {"A": "structured:%d" % (2000 if p == 3 else 400), "B": "structured:10", "Bmax": 40})
+                first = list(mc) == list(fl.deg12_moduli(p)[0])
+                spec = ({"A": "all" if first else "structured:1500", "B": "structured:20", "Bmax": 60} if p == 2
+                        else {"A": "structured:%d" % (1000 if p == 3 else 250), "B": "structured:10", "Bmax": 40})
             spec.update({"p": p, "mc": list(mc)})
             tasks.append(("tables", spec))
     full = []
@@ -491,6 +642,10 @@ def run(ctx):
         full.append(("bfs", {"curve": curve, "group": "E1", "depth": 2 if ctx.quick else 3,
                              "square": True, "cap": 600 if ctx.quick else 1500}))
     full.append(("eq_collisions", {}))
+    hi_p = 1000 if ctx.quick else 4000
+    for lo in range(2, hi_p, 125):
+        full.append(("inv_sweep", {"lo": lo, "hi": min(hi_p, lo + 125), "sample": lo == 2}))
+    full.append(("inv_phi", {"w": 3000 if ctx.quick else 20000}))
     q7, q11, q5 = fl.quadratics(7), fl.quadratics(11), fl.quadratics(5)
     full.append(("subsub", {"xs": [[0, 1], [1, 1], [2, 6], [3, 4]],
                             "cases": [(7, list(q7[0]), 11, list(q11[0])), (11, list(q11[1]), 7, list(q7[2])),
